@@ -435,3 +435,43 @@ func init() {
 		Why: "the loader publishes its long-lived copy rather than the fresh value",
 		Edits: []Edit{{File: "cmds/server/loader/json/json.go", Old: `	l.config <- c`, New: `	l.config <- l.ServerConfig`}}})
 }
+
+func init() {
+	// ---- C18 ------------------------------------------------------------------------------
+	addMutant(Mutant{Name: "c18-log-pap-data", Props: []string{"C18"}, Rule: "R-TAINT", KeySub: "AuthenticatePAP",
+		Why: "the PAP debug line also prints body.Data (the password)",
+		Edits: []Edit{{File: "cmds/server/handlers/authen_pap.go", Old: `		a.Debugf(request.Context, "[%v] [%v] username is missing for rem-addr: [%v]", request.Header.SessionID, body.RemAddr)`, New: `		a.Debugf(request.Context, "[%v] [%v] username is missing for rem-addr: [%v]", request.Header.SessionID, body.RemAddr, body.Data)`}}})
+	addMutant(Mutant{Name: "c18-revert-obscure-data", Props: []string{"C18"}, Rule: "R-TAINT", KeySub: "record",
+		Why: "the repaired obscure list loses 'data' again",
+		Edits: []Edit{{File: "cmds/server/handlers/authen.go", Old: `tq.ContextConnLocalAddr), "user-msg", "data")`, New: `tq.ContextConnLocalAddr), "user-msg")`}}})
+	addMutant(Mutant{Name: "c18-retain-usermsg-in-getpassword", Props: []string{"C18"}, Rule: "R-TAINT", KeySub: "getPassword",
+		Why: "getPassword retains user-msg (the password) in the logging context",
+		Edits: []Edit{{File: "cmds/server/handlers/authen_ascii.go", Old: `	// missing password, don't query backend for user`, New: `	a.RecordCtx(&request, tq.ContextUserMsg)
+	// missing password, don't query backend for user`}}})
+	addMutant(Mutant{Name: "c18-log-secretconfig", Props: []string{"C18"}, Rule: "R-TAINT", KeySub: "build",
+		Why: "the loader logs the whole secret configuration (including the key)",
+		Edits: []Edit{{File: "cmds/server/loader/loader.go", Old: `		l.Infof(l.ctx, "processing secret config [%v:%v]", provider.Name, provider.Type)`, New: `		l.Infof(l.ctx, "processing secret config [%v:%v] %+v", provider.Name, provider.Type, provider)`}}})
+	addMutant(Mutant{Name: "c18-password-in-reply", Props: []string{"C18"}, Rule: "R-TAINT", KeySub: "reply-field",
+		Why: "the failure reply echoes the password the client sent",
+		Edits: []Edit{{File: "cmds/server/config/authenticators/bcrypt/bcrypt.go", Old: `	a.Errorf(request.Context, "failed to validate the user [%v] using a bcrypt password", a.username)
+	response.Reply(
+		tq.NewAuthenReply(
+			tq.SetAuthenReplyStatus(tq.AuthenStatusFail),
+			tq.SetAuthenReplyServerMsg("login failure"),`, New: `	a.Errorf(request.Context, "failed to validate the user [%v] using a bcrypt password", a.username)
+	response.Reply(
+		tq.NewAuthenReply(
+			tq.SetAuthenReplyStatus(tq.AuthenStatusFail),
+			tq.SetAuthenReplyServerMsg("login failure for "+password),`}}})
+	addMutant(Mutant{Name: "c18-log-connection-secret", Props: []string{"C18"}, Rule: "R-TAINT", KeySub: "handle",
+		Why: "the key-mismatch error mentions the secret in use",
+		Edits: []Edit{{File: "crypt.go", Old: `		return nil, fmt.Errorf("bad secret detected for ip [%s]", c.RemoteAddr().String())`, New: `		return nil, fmt.Errorf("bad secret detected for ip [%s] (ours %q)", c.RemoteAddr().String(), c.secret)`}}})
+	addMutant(Mutant{Name: "c18-log-bcrypt-password", Props: []string{"C18"}, Rule: "R-TAINT", KeySub: "bcrypt",
+		Why: "the bcrypt failure line prints the candidate password",
+		Edits: []Edit{{File: "cmds/server/config/authenticators/bcrypt/bcrypt.go", Old: `	a.Errorf(request.Context, "failed to validate the user [%v] using a bcrypt password", a.username)`, New: `	a.Errorf(request.Context, "failed to validate the user [%v] using a bcrypt password [%v]", a.username, password)`}}})
+	addMutant(Mutant{Name: "c18-log-whole-body", Props: []string{"C18"}, Rule: "R-TAINT", KeySub: "AuthenticatePAP",
+		Why: "a debug line prints the whole decoded START body",
+		Edits: []Edit{{File: "cmds/server/handlers/authen_pap.go", Old: `	// missing username
+	if len(body.User) == 0 {`, New: `	a.Debugf(request.Context, "pap start %+v", body)
+	// missing username
+	if len(body.User) == 0 {`}}})
+}
